@@ -2,13 +2,14 @@ CONSTANTS
   Users = {1, 2, 3}
   Fresh = {11, 12}
   HasAcct = 3
+  Denoms = {1, 2}
   Funds <- FundsSmall
   Amounts = {0, 1, 2}
-  Months = {1, 3}
+  Months = {1}
   SaleMonths = 2
   Unit = 1
   MonthTicks = 4
-  SaleChains = {1, 2}
+  SaleChains = {1}
   Contracts = {1, 2}
   MaxOps = 4
   MaxNow = 16
